@@ -106,8 +106,29 @@ func execute(t *testing.T, h Harness, k Knobs, prog, sched *simrt.Stream, keep i
 	// package notices a race-detector report during the bubble, and panics when tasks are left
 	// blocked at the end of the bubble.
 	done := make(chan struct{})
-	wd := time.AfterFunc(time.Duration(*fHang)*time.Second, func() { hangExit(h, k, prog, sched) })
-	defer wd.Stop()
+	// hang watchdog: the run has not taken a single scheduling step for *fHang seconds of wall-clock time
+	// (a loop without any scheduling point). Measured on progress, not on the duration of the run, so
+	// that a slow run on a loaded machine is not mistaken for a hang.
+	wdStop := make(chan struct{})
+	go func() {
+		last, since := simrt.Progress(), time.Now()
+		tick := time.NewTicker(time.Second)
+		defer tick.Stop()
+		for {
+			select {
+			case <-wdStop:
+				return
+			case <-tick.C:
+				if p := simrt.Progress(); p != last {
+					last, since = p, time.Now()
+				} else if time.Since(since) > time.Duration(*fHang)*time.Second {
+					hangExit(h, k, prog, sched)
+					return
+				}
+			}
+		}
+	}()
+	defer close(wdStop)
 	go func() {
 		defer close(done)
 		defer func() { _ = recover() }()
